@@ -115,6 +115,28 @@ def show_op(op: list) -> str:
     return f'i{op[1]}.process()'
 
 
+def malformed_variant(doc: dict) -> dict:
+    """A copy of the document with an interface added to its innermost first namespace whose
+    out-event replies bool - something the parser always refuses."""
+    bad = json.loads(json.dumps(doc))
+    bad_itf = {'<class>': 'interface', 'name': {'<class>': 'scope_name', 'ids': ['QZRefused']},
+               'types': {'<class>': 'types', 'elements': []},
+               'events': {'<class>': 'events', 'elements': [
+                   {'<class>': 'event', 'name': 'qz', 'direction': 'out',
+                    'signature': {'<class>': 'signature',
+                                  'type_name': {'<class>': 'scope_name', 'ids': ['bool']},
+                                  'formals': {'<class>': 'formals', 'elements': []}}}]}}
+    where = bad
+    while True:
+        inner = next((e for e in where.get('elements', []) if isinstance(e, dict)
+                      and e.get('<class>') == 'namespace'), None)
+        if inner is None:
+            break
+        where = inner
+    where.setdefault('elements', []).append(bad_itf)
+    return bad
+
+
 def build_case(seed: int, stream: int) -> dict:
     rng = random.Random(f'{PROP}:{seed}:{stream}')
     n_docs = rng.randint(2, 4)
@@ -126,7 +148,20 @@ def build_case(seed: int, stream: int) -> dict:
     if stream % 7 == 3:     # the same document twice: identical parses must not merge either
         docs[-1] = json.loads(json.dumps(docs[0]))
         expects[-1] = json.loads(json.dumps(expects[0]))
-    return {'docs': docs, 'expects': expects, 'ops': gen_history(rng, n_docs),
+    if stream % 4 == 1:
+        # a document the parser refuses half-way through, deep inside its namespaces: what a
+        # failed parse leaves behind in the instance must not leak into later parses
+        docs.append(malformed_variant(docs[0]))
+        expects.append(None)
+        n_docs += 1
+    ops = gen_history(rng, n_docs)
+    if expects[-1] is None:
+        # and for certain: refuse on an instance, then let the same instance parse good ones
+        slot = next((o[1] for o in ops if o[0] in ('new', 'new_empty')), 0)
+        ops += [['load', slot, n_docs - 1], ['process', slot], ['load', slot, 0], ['process', slot],
+                ['new', slot, n_docs - 1, 'str'], ['process', slot], ['load', slot, 1],
+                ['process', slot]]
+    return {'docs': docs, 'expects': expects, 'ops': ops,
             'child_ref': stream % CHILD_EVERY == 0, 'stream': stream,
             'paths': ['per-doc', 'one-file', 'relative'][stream % 3]}
 
@@ -191,6 +226,8 @@ def eval_case(case: dict) -> dict:
     ref_kind = ['ir'] * len(docs)
     if case.get('child_ref'):
         for idx, text in enumerate(texts):
+            if expects[idx] is None:
+                continue
             alone = child_parse(text)
             if alone is None:
                 count('child_reference_failed')
@@ -295,6 +332,8 @@ def eval_case(case: dict) -> dict:
                 except DznJsonError as exc:
                     if doc is None:
                         count('no_document_refusals')
+                    elif refs[doc] is None:
+                        count('refusals_of_a_malformed_document')
                     else:
                         count('process_calls_compared')
                         report('process-result-differs:raised:DznJsonError',
@@ -320,6 +359,9 @@ def eval_case(case: dict) -> dict:
                         entries = sum(len(v) for v in got.values())
                         report('process-result-differs:no-document-accepted',
                                dict(detail, entries_returned=entries))
+                        continue
+                    if refs[doc] is None:
+                        count('malformed_document_accepted')     # C15's business, not judged here
                         continue
                     state['docs_processed'].append(doc)
                     count('process_calls_compared')
@@ -421,7 +463,8 @@ def main(tier: str) -> int:
     n = 200 if tier == 'quick' else 20000
     run.require('process_calls_compared', 'repeats_on_same_instance', 'interleavings',
                 'load_file_calls', 'child_references', 'no_document_refusals',
-                'files_rewritten_between_loads', 'loads_by_relative_name')
+                'files_rewritten_between_loads', 'loads_by_relative_name',
+                'refusals_of_a_malformed_document')
     for item, res in run.pmap(_worker, [(run.seed, i) for i in range(n)], chunksize=2):
         common.absorb(run, {'seed': item[0], 'stream': item[1]}, res)
     run.require('serial_parses_compared')
